@@ -28,11 +28,15 @@ EXTENDS Naturals, Sequences, FiniteSets, TLC, Json
 CONSTANTS MaxD,          \* maximal nesting depth of statements / expressions
           MaxSteps,      \* bound on the number of expansions (then only leaves)
           NLabels,       \* goto labels L1..Ln
-          UndefGoto,     \* TRUE: leave pending goto labels undefined (known finding)
-          NoretArm       \* TRUE: allow `C ? (die(), I) : I` (known finding: phi source ends in hlt)
+          NPlain         \* a behaviour draws its mode in Init from NPlain x "plain", 1 x "noret", 1 x "undef", so that
+                         \* one -simulate run yields the three categories in that proportion
 
-VARIABLES out, todo, used, defd, casen, swn, defsw, steps, globs, done
-vars == <<out, todo, used, defd, casen, swn, defsw, steps, globs, done>>
+VARIABLES out, todo, used, defd, casen, swn, defsw, steps, globs, done, mode
+vars == <<out, todo, used, defd, casen, swn, defsw, steps, globs, done, mode>>
+
+ModeMix == [i \in 1..NPlain + 2 |-> IF i <= NPlain THEN "plain" ELSE IF i = NPlain + 1 THEN "noret" ELSE "undef"]
+UndefGoto == mode = "undef"     \* leave pending goto labels undefined (known finding)
+NoretArm  == mode = "noret"     \* allow `C ? (die(), I) : I` (known finding: phi source ends in hlt)
 
 (* right-hand sides are sequences of strings; the strings in NT name nonterminals, which receive   *)
 (* their context (depth, loop, switch) when the production is applied; everything else is a token *)
@@ -157,7 +161,7 @@ Expand(rhs) == ExpandCtx(rhs, Head(todo).d + 1, Head(todo).lp, Head(todo).sw)
 Plain ==
   /\ ~done /\ todo # <<>>
   /\ LET R == Rhs(Head(todo)) IN \E r \in 1..Len(R) : Expand(R[r])
-  /\ UNCHANGED <<used, defd, casen, swn, defsw, globs, done>>
+  /\ UNCHANGED <<used, defd, casen, swn, defsw, globs, done, mode>>
 
 (* productions with side effects (statement nonterminals only) *)
 Sym == Head(todo)
@@ -169,14 +173,14 @@ Goto ==
        /\ \/ Expand(<<"goto", Lab(k), ";">>)
           \/ ~Leafy(Sym) /\ Expand(<<"if (", "@C", ") goto", Lab(k), ";">>)
        /\ used' = used \cup {k}
-  /\ UNCHANGED <<defd, casen, swn, defsw, globs, done>>
+  /\ UNCHANGED <<defd, casen, swn, defsw, globs, done, mode>>
 
 Label ==
   /\ IsS /\ ~Leafy(Sym)
   /\ \E k \in (1..NLabels) \ defd :
        /\ Expand(<<Lab(k), ":", "@S">>)
        /\ defd' = defd \cup {k}
-  /\ UNCHANGED <<used, casen, swn, defsw, globs, done>>
+  /\ UNCHANGED <<used, casen, swn, defsw, globs, done, mode>>
 
 Switch ==
   /\ IsS /\ ~Leafy(Sym)
@@ -189,19 +193,19 @@ Switch ==
                        [] shape = 3 -> <<"{", S1, S1, "}", S1>>)
                  \o <<"}">>, Sym.d + 1, Sym.lp, id)
   /\ swn' = swn + 1
-  /\ UNCHANGED <<used, defd, casen, defsw, globs, done>>
+  /\ UNCHANGED <<used, defd, casen, defsw, globs, done, mode>>
 
 Case ==
   /\ IsS /\ Sym.sw # 0 /\ ~Leafy(Sym)
   /\ Expand(<<"case", ToString(casen), ":", "@S">>)
   /\ casen' = casen + 1
-  /\ UNCHANGED <<used, defd, swn, defsw, globs, done>>
+  /\ UNCHANGED <<used, defd, swn, defsw, globs, done, mode>>
 
 Default ==
   /\ IsS /\ Sym.sw # 0 /\ Sym.sw \notin defsw /\ ~Leafy(Sym)
   /\ Expand(<<"default", ":", "@S">>)
   /\ defsw' = defsw \cup {Sym.sw}
-  /\ UNCHANGED <<used, defd, casen, swn, globs, done>>
+  /\ UNCHANGED <<used, defd, casen, swn, globs, done, mode>>
 
 (* the body is complete: define the labels that are still pending.  (Single successor: in -simulate TLC *)
 (* evaluates the invariant - and so prints - on every candidate successor, not only the one it takes.)  *)
@@ -211,17 +215,18 @@ Finish ==
          tail == IF UndefGoto THEN <<>> ELSE [i \in 1..NLabels |-> IF i \in pend THEN Lab(i) \o ": ;" ELSE ""]
      IN out' = out \o tail
   /\ done' = TRUE
-  /\ UNCHANGED <<todo, used, defd, casen, swn, defsw, steps, globs>>
+  /\ UNCHANGED <<todo, used, defd, casen, swn, defsw, steps, globs, mode>>
 
 Init ==
   /\ out = <<>> /\ used = {} /\ defd = {} /\ casen = 1 /\ swn = 0 /\ defsw = {} /\ steps = 0 /\ done = FALSE
   /\ \E g1, g2, g3 \in 1..Len(GlobTab) : g1 < g2 /\ g2 < g3 /\ globs = <<GlobTab[g1], GlobTab[g2], GlobTab[g3]>>
   /\ todo = <<N("B", 0, FALSE, 0), N("B", 0, FALSE, 0)>>
+  /\ \E i \in DOMAIN ModeMix : mode = ModeMix[i]
 
 Next == Plain \/ Goto \/ Label \/ Switch \/ Case \/ Default \/ Finish
 Spec == Init /\ [][Next]_vars
 
 Emit ==
-  done => PrintT("VCASE " \o ToJson([toks |-> out, globs |-> globs, undef |-> (UndefGoto /\ used \ defd # {}),
+  done => PrintT("VCASE " \o ToJson([toks |-> out, globs |-> globs, undef |-> (UndefGoto /\ used \ defd # {}), mode |-> mode,
                                      nsw |-> swn, ncase |-> casen - 1, labels |-> Cardinality(used \cup defd), steps |-> steps]))
 =============================================================================
